@@ -26,6 +26,14 @@ func RunATPServer(
 		session.run()
 	}()
 
+	// The error channel may only be closed once nothing can send to it anymore: when the run loop and
+	// every step and signal handler it started have finished. Closing it earlier makes a step that fails
+	// after the input ended panic with "send on closed channel".
+	go func() {
+		session.wg.Wait()
+		close(session.workDone)
+	}()
+
 	workError := session.handleClosure()
 
 	// Ensure that the session is done.
@@ -105,6 +113,15 @@ func (s *atpServerSession) sendRuntimeMessage(msgID uint32, runID string, messag
 func (s *atpServerSession) handleClosure() []*ServerError {
 	// Wait for work done or context complete.
 	var errors []*ServerError
+	stdinClosed := false
+	// Steps that are still running when this function stops early (context done) may still report
+	// errors; keep receiving so that they cannot block forever on a full channel.
+	defer func() {
+		go func() {
+			for range s.workDone { //nolint:revive // Intentionally empty; draining only.
+			}
+		}()
+	}()
 closeLoop:
 	for {
 		select {
@@ -128,16 +145,20 @@ closeLoop:
 			}
 			// If either the error report sending failed, or the error was server fatal, stop here.
 			if err != nil || errorSent.ServerFatal {
+				// Stop reading input, but keep reporting until the channel is closed, which happens once
+				// all running steps are done: they still need their errors delivered.
+				if stdinClosed {
+					continue
+				}
+				stdinClosed = true
 				err = s.stdinCloser.Close()
 				if err != nil {
-					return append(errors, &ServerError{
+					errors = append(errors, &ServerError{
 						RunID:       errorSent.RunID,
 						Err:         fmt.Errorf("error closing stdin (%w) after workDone error (%v)", err, errorSent),
 						StepFatal:   true,
 						ServerFatal: true,
 					})
-				} else {
-					break closeLoop
 				}
 			}
 		case <-s.ctx.Done():
@@ -301,7 +322,6 @@ func (s *atpServerSession) handleSignalMessage(runID string, signalMessage Signa
 func (s *atpServerSession) run() {
 	defer func() {
 		s.runDoneChannel <- true
-		close(s.workDone)
 		s.wg.Done()
 	}()
 
